@@ -203,7 +203,7 @@ class Interpret {
 
     bool    getAssignment  () const;
 
-    void    reportError(char const * msg) const { notify_formatted(true, msg); }
+    void    reportError(char const * msg) const { notify_formatted(true, "%s", msg); } // msg may carry text of the input
 
     PTRef getParsedFormula();
     vec<PTRef>& getAssertions() { return assertions; }
